@@ -69,6 +69,11 @@ func NewScanner(proto string, opts ...ScannerOption) *Scanner {
 	ec := &elasticClient{
 		client: &http.Client{
 			Transport: tr,
+			// the answer of the probed endpoint is what is reported, not the answer of
+			// whatever endpoint it redirects to
+			CheckRedirect: func(*http.Request, []*http.Request) error {
+				return http.ErrUseLastResponse
+			},
 		},
 		proto:       proto,
 		dataTimeout: defaultDataTimeout,
